@@ -39,6 +39,14 @@ from . import _n_word_max
 #%% 
 def array_support(func):
     def iterator(*args, **kwargs):
+        if len(args) > 1 and isinstance(args[1], (list, np.ndarray)) and np.asarray(args[1]).ndim > 0:
+            # second operand is an array too: pair the elements of both operands (numpy broadcasting rules)
+            x0, x1 = np.broadcast_arrays(np.asarray(args[0]), np.asarray(args[1]))
+            vals = [func(u, v, *args[2:], **kwargs) for u, v in zip(x0.ravel().tolist(), x1.ravel().tolist())]
+            if x0.dtype == object or x1.dtype == object or \
+                (len(vals) > 0 and all(isinstance(v, int) for v in vals) and np.array(vals).dtype.kind == 'f'):
+                return np.array(vals, dtype=object).reshape(x0.shape)
+            return np.array(vals).reshape(x0.shape)
         if isinstance(args[0], (list, np.ndarray)) and np.asarray(args[0]).ndim > 0:
             vals = []
             for v in args[0]:
